@@ -248,7 +248,10 @@ def stageBlockRoot (E : Env H) (cfg : Cfg) (pick : List Nat → Nat) (cap : Cap 
     else match get nd.shareTree (firstLeafNum cap.n + shnum) with
       | none => (some (.dead .exception), nd)        -- `assert isinstance(h, bytes)` in set_hashes({0: None})
       | some r =>
-        match setHashes E.ops cfg pick (firstLeafNum sz.numSegs) bt [(0, r)] [] with
+        -- `set_hashes({0: r})`: on an empty root slot this is a plain store (`seed`, as for the UEB roots); a
+        -- stored-but-falsy root (`b""`) goes through the comparison of `set_hashes`
+        if get bt 0 = none then (none, nd.setBlockTree shnum (seed bt r))
+        else match setHashes E.ops cfg pick (firstLeafNum sz.numSegs) bt [(0, r)] [] with
         | (.ok, t') => (none, nd.setBlockTree shnum t')
         | (o, t') => (some (.dead (whyOf o)), nd.setBlockTree shnum t')
 
@@ -698,6 +701,16 @@ structure PostRepair where
 def gatherRepairResults (k n : Nat) (pre : List ServerResult) (ur : List (Nat × Nat)) : PostRepair :=
   let good := (postRepairKeys pre ur).length
   { healthy := decide (good ≥ n), recoverable := decide (good ≥ k), countGood := good }
+
+/-! ## repairer.py `Repairer.start` / `_got_segsize` -/
+
+/-- the encoding parameters the repairer hands to `CHKUploader`: k and N from the verify cap, the segment size
+    from `get_segment_size()` = `DownloadNode.get_segsize()`, i.e. the `segment_size` of the *validated* UEB
+    (known only after segment 0 has been fetched; `none` = not known / the fetch failed) -/
+def repairParams {H : Type} (cap : Cap H) (nd : Node H) : Option Params :=
+  match nd.known with
+  | none => none
+  | some (u, _) => some { k := cap.k, n := cap.n, segSize := u.segmentSize }
 
 /-! ## abstract storage spec used by repair (refined by the storage server: C22) -/
 
